@@ -92,12 +92,30 @@ def check(model: Model, run: Run) -> None:
         return not any(isinstance(x, ast.Name) and x.id == fi.name for g in model.functions.values() if g is not fi and not isinstance(g.node, ast.Lambda)
                        and g.module == fi.module for x in ast.walk(g.node))
     fns = [fi for fi in fns if not expanded_away(fi)]
+    # a public method of the reader / writer that is written entirely in terms of other public methods of the same object (it touches
+    # no private attribute and calls no module helper) adds no BER of its own: what it adds - a text codec, a conversion - is not
+    # one of the primitives this property is about
+    def composition(fi) -> bool:
+        if fi.cls not in (f"{ASN1}.ASN1Reader", f"{ASN1}.ASN1Writer") or fi.name.startswith("_"):
+            return False
+        for x in ast.walk(fi.node):
+            if isinstance(x, ast.Attribute) and isinstance(x.value, ast.Name) and x.value.id == "self" and x.attr.startswith("_"):
+                return False
+            if isinstance(x, ast.Name) and isinstance(x.ctx, ast.Load):
+                q_ = model.resolve_name(fi.module, x.id)
+                if q_ in model.functions and model.functions[q_].module == ASN1:
+                    return False
+        return any(isinstance(x, ast.Call) and isinstance(x.func, ast.Attribute) and isinstance(x.func.value, ast.Name) and x.func.value.id == "self" for x in ast.walk(fi.node))
+    comps = {fi.qualname for fi in fns if composition(fi)}
+    if comps:
+        run.note("methods built only from other public methods of the same class, not judged as primitives: " + ", ".join(sorted(q.split('.')[-1] for q in comps)))
+    fns = [fi for fi in fns if fi.qualname not in comps]
     # ---- (a) totality -------------------------------------------------------------
     for fi in fns:
         mr.escapes(fi.qualname, fi.cls)
     judged = {fi.qualname for fi in fns}
-    sites = [s for s in mr.implicit_sites if s["function"].startswith(ASN1 + ".") and (s["function"] in judged or s["function"] not in model.functions or
-                                                                                       not expanded_away(model.functions[s["function"]]))]
+    sites = [s for s in mr.implicit_sites if s["function"].startswith(ASN1 + ".") and s["function"] not in comps and
+             (s["function"] in judged or s["function"] not in model.functions or not expanded_away(model.functions[s["function"]]))]
     run.floor("implicit raiser sites in asn1.py", len(sites), 25)
     allowed_reader = {"ValueError", "UnicodeDecodeError"}
     for s in sites:
